@@ -49,8 +49,41 @@ def design_theorems():
     return [] if (res.rc == 0 and "Error" not in tail) else ["MC_RefineDesign: " + tail[-600:]]
 
 
+def vf2_trace_rejects_corruption():
+    """a recorded run of the real VF2++ loop is accepted; with one candidate removed from one logged stack frame, or one
+    event's chosen candidate changed, the replay stops at that event"""
+    import random
+    from . import vf2trace
+    model.init()
+    pairs = [p for p in vf2trace.random_pairs(random.Random(5), 40, 5)]
+    recs, _ = vf2trace.record_all(pairs)
+    recs = [r for r in recs if len(r["events"]) >= 6][:6]
+    if len(recs) < 3:
+        return ["vf2 selftest: tracer recorded too few runs"]
+    bad = copy.deepcopy(recs)
+    k1 = next(i for i, e in enumerate(bad[0]["events"]) if e["ev"] == "try")
+    bad[0]["events"][k1]["v"] += 1                                   # another candidate than the one taken
+    k2 = len(bad[1]["events"]) // 2
+    st = bad[1]["events"][k2]["state"]
+    st["fr2"] = st["fr2"][1:] if st["fr2"] else [bad[1]["inst"]["n2"][0]]     # frontier bookkeeping off by one atom
+    v0, _ = vf2trace.replay(recs)
+    v1, _ = vf2trace.replay(bad)
+    problems = []
+    for r in recs:
+        if v0[r["tid"]]["reached"] != v0[r["tid"]]["len"]:
+            problems.append("vf2: untouched run %d not accepted" % r["tid"])
+    if v1[bad[0]["tid"]]["reached"] != k1:
+        problems.append("vf2: changed candidate accepted past event %d (reached %d)" % (k1, v1[bad[0]["tid"]]["reached"]))
+    if v1[bad[1]["tid"]]["reached"] != k2:
+        problems.append("vf2: corrupted frontier accepted past event %d (reached %d)" % (k2, v1[bad[1]["tid"]]["reached"]))
+    for r in recs[2:]:
+        if v1[r["tid"]]["reached"] != v1[r["tid"]]["len"]:
+            problems.append("vf2: corruption changed the verdict of another run")
+    return problems
+
+
 def main():
-    problems = trace_edit_rejects_corruption() + obs_descr_rejects_flip() + design_theorems()
+    problems = trace_edit_rejects_corruption() + obs_descr_rejects_flip() + design_theorems() + vf2_trace_rejects_corruption()
     for p in problems:
         print("SELFTEST FAILED:", p)
     print("selftest:", "ok" if not problems else "FAILED")
